@@ -5,6 +5,7 @@ from fractions import Fraction
 from .. import nf
 from ..nf import Poly, Tup, Const, Slice, NONE, TRUE, FALSE
 from ..model import AnalysisError
+from ..ranges import Ranges
 from ..rules import run as analyse, returns, fmt, is_app, S, C, conds_str, pair
 
 SELF = S('self')
@@ -39,6 +40,49 @@ def plane_slice_rule(chk, repo, clause):
                 and bound_of(e).get('pad') == Tup([C(0), C(0)])
     chk.ob(clause, 'D-flow', f.key, 'segmented mask: one bounding slice per segment mask, in order', ok3,
            fmt(three[0].ret)[:160] if three else '', f.loc())
+
+
+def mask_support_rule(chk, repo, clause):
+    """Plane.__init__: the stored mask is the support of the given mask (or of the amplitude): every
+    non-zero sample becomes 1.  The test must see the values as given - a cast to an integer type before
+    the `!= 0` test truncates fractional (anti-aliased) samples to 0 and zeroes the field there."""
+    f, paths, _ = analyse(repo, 'plane.Plane.__init__')
+    ok, n, det = True, 0, ''
+    for p in [q for q in paths if q.status != 'raise']:
+        st = [e for e in p.events if e.kind == 'write' and e.data.get('how') == 'attrstore' and e.data.get('attr') == '_mask'
+              and e.target == SELF]
+        if not st:
+            continue
+        n += 1
+        v = nf.strip_apps(st[-1].data['value'], ('copy', 'deepcopy', 'shallowcopy', 'm:copy'))
+        # outer casts (applied after the binarisation) are harmless
+        a = v.single_atom() if isinstance(v, Poly) else None
+        while a is not None and is_app(a, ('cast', 'm:astype')):
+            v = a[2][0]
+            a = v.single_atom() if isinstance(v, Poly) else None
+        good = False
+        if a is not None and is_app(a, 'setitem') and len(a[2]) == 3 and a[2][2] == C(1):
+            base, key = a[2][0], a[2][1]
+            ka = key.single_atom() if isinstance(key, Poly) else None
+            tested = None
+            if ka is not None and is_app(ka, 'nonzero'):
+                tested = ka[2][0]
+            elif ka is not None and is_app(ka, 'ne') and C(0) in ka[2]:
+                tested = [x for x in ka[2] if x != C(0)][0]
+            src = nf.strip_apps(tested, ('copy', 'deepcopy', 'shallowcopy', 'm:copy')) if tested is not None else None
+            good = tested is not None and tested == base and \
+                not any(is_app(x, ('cast', 'm:astype', 'floor', 'round', 'ceil', 'fix')) for x in nf.value_atoms(src))
+            if not good:
+                det = f'support taken from {fmt(tested)[:120]}'
+        else:
+            r = Ranges()
+            if r.of(v).binary and not any(is_app(x, ('cast', 'm:astype')) for x in nf.value_atoms(v)):
+                good = True
+            else:
+                det = f'stored mask {fmt(v)[:160]}'
+        ok = ok and good
+    chk.ob(clause, 'R-binary', f.key, 'stored mask = support (non-zero -> 1) of the mask values as given', ok and n > 0,
+           det or f'{n} path(s)', f.loc())
 
 
 def fit_tilt_rules(chk, repo, clause):
@@ -256,8 +300,7 @@ def wavefront_ctor_rules(chk, repo, clause):
         fs = [e for e in p.events if e.kind == 'call' and e.data.get('new') == 'field.Field']
         if len(fs) == 1:
             d = fs[0].bound.get('data')
-            da = d.single_atom() if isinstance(d, Poly) else None
-            unit = d == nf.ONE or (da is not None and is_app(da, 'copy') and da[2][0] == nf.ONE)
+            unit = nf.strip_apps(d) == nf.ONE
             ok = unit and fs[0].bound.get('offset') == NONE and fs[0].bound.get('tilt') == NONE
     chk.ob(clause, 'D-flow', f.key, 'a new wavefront is the unit plane wave (one field of value 1, no offset, no tilt)', ok, '', f.loc())
 
